@@ -23,3 +23,6 @@ package types
 //@   AccumulatedCommitStoreKey Round2InfoStoreKey Round2InfoCountStoreKey ConfirmStoreKey
 //@   ComplainsWithStatusStoreKey ConfirmComplainCountStoreKey DEStoreKey DEQueueStoreKey SigningStoreKey
 //@   PartialSignatureCountStoreKey PartialSignatureStoreKey SigningAttemptStoreKey
+
+//@ func (k RollingseedKeeper) GetRollingSeed
+//@ trusted
